@@ -29,7 +29,8 @@ fn run(expr: &str, doc: &str) -> Result<Out, String> {
 }
 
 fn part(src: &mut Src, st: &mut Stats, hint: Option<&J>, depth: usize) -> Option<String> {
-    let o = ExprOpts { max_depth: depth, extremes: false, ..ExprOpts::default() };
+    // a quarter of the parts call (untyped) functions: many of those fail on some elements only
+    let o = ExprOpts { max_depth: depth, extremes: false, funcs: src.chance(64), ..ExprOpts::default() };
     let t = gen_expr(src, 0, hint, &o);
     let text = spell_tree(&t, src, st).map(|x| x.0)?;
     // sometimes the part goes through a total built-in (defined on every value, nulls included)
@@ -102,15 +103,75 @@ fn map_elements(items: &[J], r: Option<&str>) -> Result<(Out, usize), String> {
     Ok((Out::Val(J::Arr(out)), distinct.len()))
 }
 
+/// The implementation reads the shortest spelling of `x` back as `x` (its
+/// JSON parser is only accurate to 2 ulp on 17-digit numerals).
+fn stable(x: f64) -> bool {
+    let t = J::f(x).to_json();
+    match search_text("@", &t) {
+        ImpOut::Ok(J::Num(n)) => n.f().to_bits() == x.to_bits(),
+        _ => false,
+    }
+}
+
+/// Records whose field `n` holds numbers that are equal, one or two units in
+/// the last place apart, or clearly different, and a predicate comparing `n`
+/// with a literal from the same family.
+fn near_numbers(src: &mut Src) -> (J, String) {
+    let x: f64 = [0.3, 0.1 + 0.2, 1e22, 100.0, 1.0, 0.7100000000000002, 1.0 / 3.0, 123456.789, 4.35, 1e-7, 2.5e15][src.below(11)];
+    let mut family: Vec<J> = vec![];
+    for y in [x, f64::from_bits(x.to_bits() + 1), f64::from_bits(x.to_bits() - 1), f64::from_bits(x.to_bits() + 2), x * (1.0 + 1e-12), x + 1.0, -x] {
+        if stable(y) {
+            family.push(J::f(y));
+        }
+    }
+    family.push(J::int(9007199254740992));
+    family.push(J::int(9007199254740993));
+    family.push(J::int(1));
+    family.push(J::s("1"));
+    family.push(J::Null);
+    let n = 2 + src.below(6);
+    let mut rows = vec![];
+    for i in 0..n {
+        let mut m = std::collections::BTreeMap::new();
+        m.insert("id".to_string(), J::int(i as i64));
+        m.insert("n".to_string(), family[src.below(family.len())].clone());
+        rows.push(J::Obj(m));
+    }
+    let lit = family[src.below(family.len())].to_json();
+    let pred = match src.below(10) {
+        0 | 1 => format!("n == `{}`", lit),
+        2 => format!("n != `{}`", lit),
+        3 => format!("`{}` == n", lit),
+        4 => format!("n <= `{}`", lit),
+        5 => format!("n >= `{}`", lit),
+        6 => format!("`{}` >= n", lit),
+        7 => format!("@.n == `{}`", lit),
+        8 => format!("[n] == [`{}`]", lit),
+        _ => format!("n == `{}` && id >= `0`", lit),
+    };
+    let mut m = std::collections::BTreeMap::new();
+    m.insert("xs".to_string(), J::Arr(rows));
+    (J::Obj(m), pred)
+}
+
 fn compound(src: &mut Src, st: &mut Stats, _env: &Env) -> CaseResult {
-    let mut doc = gen_doc(src, &DocOpts::default());
-    if src.chance(8) {
+    let near = if src.chance(14) { Some(near_numbers(src)) } else { None };
+    let mut doc = match &near {
+        Some((d, _)) => d.clone(),
+        None => gen_doc(src, &DocOpts::default()),
+    };
+    if near.is_none() && src.chance(8) {
         crate::gen_doc::scale_some_array(&mut doc, src, 2500);
         st.class("scaled-document");
     }
     let dt = doc.to_json();
-    let kind = src.below(12);
-    let l = match part(src, st, Some(&doc), 3) {
+    let kind = if near.is_some() {
+        st.class("near-equal-numbers");
+        if src.flip() { 6 } else { 2 }
+    } else {
+        src.below(12)
+    };
+    let l = match if near.is_some() { Some("xs".to_string()) } else { part(src, st, Some(&doc), 3) } {
         Some(x) => x,
         None => {
             st.discard();
@@ -209,7 +270,16 @@ fn compound(src: &mut Src, st: &mut Stats, _env: &Env) -> CaseResult {
                 _ => None,
             };
             let with_rhs = src.chance(180);
-            let r = if with_rhs { part(src, st, elem_hint.as_ref(), 3) } else { None };
+            let r = match (&near, kind) {
+                (Some((_, p)), 2) => Some(p.clone()),
+                _ => {
+                    if with_rhs {
+                        part(src, st, elem_hint.as_ref(), 3)
+                    } else {
+                        None
+                    }
+                }
+            };
             let rhs_txt = r.as_ref().map(|r| format!(".not_null({})", r)).unwrap_or_default();
             let (c, items, form): (String, Option<Vec<J>>, &str) = match kind {
                 2 => (format!("({})[*]{}", l, rhs_txt), lj.as_ref().and_then(|j| j.as_arr().cloned()), "listwild"),
@@ -249,11 +319,15 @@ fn compound(src: &mut Src, st: &mut Stats, _env: &Env) -> CaseResult {
                 }
                 _ => {
                     // filter: select the elements whose predicate result is truthy
-                    let p = match part(src, st, elem_hint.as_ref(), 3) {
-                        Some(x) => x,
-                        None => return Ok(()),
+                    let p = match &near {
+                        Some((_, p)) => p.clone(),
+                        None => match part(src, st, elem_hint.as_ref(), 3) {
+                            Some(x) => x,
+                            None => return Ok(()),
+                        },
                     };
-                    let txt = format!("({})[?{}]{}", l, p, rhs_txt);
+                    // (the plain spelling `L[?P]` as well as the parenthesised one)
+                    let txt = if near.is_some() && src.flip() { format!("{}[?{}]{}", l, p, rhs_txt) } else { format!("({})[?{}]{}", l, p, rhs_txt) };
                     let mut sel: Option<Vec<J>> = None;
                     let mut pred_err: Option<String> = None;
                     if let Some(J::Arr(arr)) = &lj {
